@@ -412,7 +412,10 @@ def run_cell(ctx, fn, g, var, cell, fv, consts, float_names):
     # Soundness of using one representative per cell: every comparison is between the variable and constants that are
     # region boundaries, and power-of-two-ness is an explicit coordinate, so all members of a cell decide alike.
     try:
-        visited, term = C.trace(g, g.entry, atom, visit=visit)
+        def no_loops(n_):
+            # a loop over values this evaluator does not produce (a generator of readings, a table): how often it runs is unknown
+            raise C.Undetermined("the loop `for %s in %s` is not evaluated" % (norm(n_.ast.target), norm(n_.ast.iter)[:40]) if isinstance(n_.ast, ast.For) else "a loop is not evaluated")
+        visited, term = C.trace(g, g.entry, atom, visit=visit, iter_decide=no_loops)
     except C.Undetermined as exc:
         return "undetermined", str(exc)
     if state.get("unknown"):
@@ -690,7 +693,19 @@ def routes(ctx):
             else:
                 ctx.holds("C12.3", m, "self.piece_length = automatic choice, unchanged", site)
         else:
-            ctx.violated("C12.3", m, "piece_length is assigned %s, which is not the unchanged result of the normaliser or of the automatic choice" % norm(val), site)
+            base = val
+            while isinstance(base, (ast.Attribute, ast.Subscript)):
+                base = base.value
+            via_call = False
+            if isinstance(base, ast.Name):
+                vals_ = [p_ for w_, p_ in ctx.res.bindings(m).get(base.id, []) if w_ in ("value", "unpack")]
+                via_call = bool(vals_) and all(isinstance(v_[0] if isinstance(v_, tuple) else v_, ast.Call) and C.targets_of(ctx, m, v_[0] if isinstance(v_, tuple) else v_) for v_ in vals_)
+            if via_call:
+                # a field / element of what a package function returned (a record carrying the choice): where the value comes from
+                # is decided in that function, which was not followed
+                ctx.undecided("C12.3", m, "piece_length is assigned %s, part of the result of a package function; whether that is the unchanged result of the normaliser or of the automatic choice was not followed" % norm(val), site)
+            else:
+                ctx.violated("C12.3", m, "piece_length is assigned %s, which is not the unchanged result of the normaliser or of the automatic choice" % norm(val), site)
     ctx.floor("assignments of MetaFile.piece_length", 2, direct)
     # the recorded value
     rec = 0
